@@ -12,6 +12,17 @@ import (
 )
 
 func (x *Exec) evalCall(n *ast.CallExpr, st *State, env *Env) Val {
+	v := x.evalCall0(n, st, env)
+	if x.c.inContract == 0 {
+		if x.callResults == nil {
+			x.callResults = map[*ast.CallExpr]Val{}
+		}
+		x.callResults[n] = v
+	}
+	return v
+}
+
+func (x *Exec) evalCall0(n *ast.CallExpr, st *State, env *Env) Val {
 	// conversions and builtins
 	if env.info != nil {
 		if tv, ok := env.info.Types[n.Fun]; ok && tv.IsType() {
@@ -660,6 +671,21 @@ func (x *Exec) evalPseudo(name string, n *ast.CallExpr, st *State, env *Env) (Va
 		x.c.inContract++
 		v := x.eval(x.curCall.Args[i], st, x.codeEnv)
 		x.c.inContract = saved
+		return v, true
+	case "ret": // ret() in an `after call:Name#k` point: the value that call returned (the first one of several)
+		if x.curCall == nil {
+			panic(unsupported("ret() needs an after call:Name#k point"))
+		}
+		v, ok := x.callResults[x.curCall]
+		if !ok {
+			panic(unsupported("ret(): the call has not been executed at this point"))
+		}
+		if len(v.Tuple) > 0 {
+			v = v.Tuple[0]
+		}
+		if v.T == "" && !v.Nil && v.Seq == nil && v.C == nil {
+			panic(unsupported("ret(): the call returns nothing"))
+		}
 		return v, true
 	case "pre": // pre(N, e): e evaluated in the state at the start of the current iteration of loop N
 		lit, ok := n.Args[0].(*ast.BasicLit)
